@@ -79,6 +79,23 @@ def loc_attr_cases(version):
         yield "list", ll, None
 
 
+def list_alphabet(version):
+    some = [[(OPN("reg1"),)], [(OPN("fbreg"), -8), (OPN("deref"),)], [], [(OPN("breg7"), 16), (OPN("const1u"), 3), (OPN("plus"),)]]
+    al = [("pair", 0, 4, some[0]), ("pair", 4, 9, some[1]), ("pair", 16, 32, some[3]), ("pair", 8, 8, some[2]), ("base", 0x1000), ("base", 0x7000)]
+    if version >= 5:
+        al += [("start_end", 0x5000, 0x5010, some[1]), ("start_length", 0x6000, 0x20, some[0]), ("default", some[3])]
+    return al
+
+
+def list_cases(version, maxlen):
+    """Every location list of up to maxlen entries over the entry alphabet (pairs incl. an empty one, base address
+    selections, and for DWARF 5 start_end / start_length / default_location)."""
+    al = list_alphabet(version)
+    for n in range(maxlen + 1):
+        for seq in itertools.product(al, repeat=n):
+            yield "list", g.LocList(list(seq)), None
+
+
 def canon_elem(low, high, nops, pos):
     return "LE:%x:%x:%d@%d" % (low, high, nops, pos)
 
@@ -101,8 +118,8 @@ LOC_ITEMS = {
 }
 
 
-def build_loc_file(version, osz=4):
-    cases = list(loc_attr_cases(version))
+def build_loc_file(version, osz=4, lists=None, low_pc=0):
+    cases = list(loc_attr_cases(version)) if lists is None else list(list_cases(version, lists))
     kids, model = [], []
     form = "DW_FORM_exprloc" if version >= 4 else "DW_FORM_block1"
     ptr = g.secptr_form(version, osz)
@@ -131,9 +148,11 @@ def build_loc_file(version, osz=4):
             kind_ = "u-ref"
         d_ = D("DW_TAG_variable", [A("DW_AT_name", "DW_FORM_string", b"t_" + nm.encode()), A("DW_AT_location", form, [op])])
         typed.append((d_, nm, op, kind_))
-    root = g.cu_root(b"l.c", version=version, offset_size=osz, low_pc=0, children=[bt] + kids + [t[0] for t in typed])
+    if lists is not None:
+        typed = []
+    root = g.cu_root(b"l.c", version=version, offset_size=osz, low_pc=low_pc, children=[bt] + kids + [t[0] for t in typed])
     elf = g.ElfFile([g.Unit(root, version, osz)])
-    elf.typed, elf.bt = typed, bt
+    elf.typed, elf.bt, elf.low_pc = typed, bt, low_pc
     return elf, model
 
 
@@ -143,7 +162,7 @@ def loc_expected(elf, model, version, osz):
     e = {k: [] for k in LOC_ITEMS}
     for i, (die, kind, val, ranges) in enumerate(model):
         if kind == "list":
-            ranges = [(lo, hi, ops) for (lo, hi, ops) in val.ranges(0)]
+            ranges = [(lo, hi, ops) for (lo, hi, ops) in val.ranges(elf.low_pc)]
         pos_entry = None  # position within `entry ?AT_location`: all DIEs but the root have the attribute
         dc = dwmodel.die_canon(fid, die, False, (), i + 2)
         dr = dwmodel.die_canon(fid, die, True, (), i + 2)
@@ -291,9 +310,13 @@ def _worker(d, chunk, extra):
     path = os.path.join(dwbattery.DWDIR, "c17-%d.o" % os.getpid())
     out = {"files": 0, "queries": 0, "results": 0, "bad": []}
     for kind, arg in chunk:
-        if kind == "loc":
-            version, osz = arg
-            elf, model = build_loc_file(version, osz)
+        if kind in ("loc", "lists"):
+            if kind == "loc":
+                version, osz = arg
+                elf, model = build_loc_file(version, osz)
+            else:
+                version, osz, maxlen, low_pc = arg
+                elf, model = build_loc_file(version, osz, maxlen, low_pc)
             elf.write(path)
             exp = loc_expected(elf, model, version, osz)
             nq, nr, bad = dwbattery.run_file(d, LOCBAT, elf, path, exp)
@@ -328,6 +351,8 @@ def main(ctx):
     bins = ctx.build(["zwdrv"])
     thorough = ctx.tier == "thorough"
     tasks = [[("loc", (v, o))] for v in (2, 3, 4, 5) for o in ((4, 8) if thorough else (4,))]
+    maxlen = 4 if thorough else 3
+    tasks += [[("lists", (v, o, maxlen, lp))] for v in (2, 3, 4, 5) for o in ((4, 8) if thorough else (4,)) for lp in (0, 0x400000)]
     tasks += [[("abbrev", k)] for k in range(64 if thorough else 32)]
     for r in common.pmap(ctx, _worker, tasks, bins["zwdrv"], "full", timeout=300, cmd_timeout=120):
         for k in ("files", "queries", "results"):
@@ -342,7 +367,8 @@ def main(ctx):
         "evaluations": n, "distinct_nontrivial": n,
         "rule": "state = one generated file (location attributes: every opcode of the menu at boundary operands, alone / second / in triples; lists with 0-3 ranges and base entries; "
                 "abbreviation layouts: private / shared / unshared tables, indirect forms); every battery query result is compared with the generator's model; distinct = results compared",
-        "bounds": {"versions": [2, 3, 4, 5], "op_menu_entries": len(op_menu(5)), "abbrev_variants": 64 if thorough else 32},
+        "bounds": {"versions": [2, 3, 4, 5], "op_menu_entries": len(op_menu(5)), "abbrev_variants": 64 if thorough else 32,
+                   "location_lists": {"entry_alphabet": [e[:3] if e[0] != "default" else e[:1] for e in list_alphabet(5)], "max_entries": maxlen, "unit_low_pc": [0, 0x400000]}},
     }
     return ctx.finish("model_checking", cov, [
         "the generator's model is the reference (offsets of operations come from its own encoder, cross-checked by lib/test_elfgen.py against an independent decoder)",
